@@ -99,8 +99,15 @@ pub fn compact(cells: &[u64]) -> Result<Vec<u64>, String> {
         return Ok(Vec::new());
     }
 
+    // Validate every index and drop any stray bits, so that only canonical indices are merged
+    // and returned (same rule as uncompact and the hierarchy functions)
+    let mut canonical_cells = Vec::with_capacity(cells.len());
+    for &cell in cells {
+        canonical_cells.push(serialize(&deserialize(cell)?)?);
+    }
+
     // Single sort and dedup
-    let unique_cells: HashSet<u64> = cells.iter().copied().collect();
+    let unique_cells: HashSet<u64> = canonical_cells.into_iter().collect();
     let mut current_cells: Vec<u64> = unique_cells.into_iter().collect();
     current_cells.sort_unstable();
 
